@@ -497,7 +497,7 @@ func (j *judgeCtx) releaseSeq(s *Sub) uint64 {
 	if s.Purged != 0 {
 		// the purge call that removed it: its invoke
 		for _, c := range j.r.calls {
-			if c.K == opPurge && c.Inv <= s.Purged && (c.Ret == 0 || c.Ret >= s.Purged) {
+			if c.K == opPurge && c.Task == s.PurgeTask && c.Inv <= s.Purged && (c.Ret == 0 || c.Ret >= s.Purged) {
 				upd(c.Inv)
 			}
 		}
@@ -1399,7 +1399,7 @@ func (j *judgeCtx) surelyDone(b *bnd, s *Sub, seq uint64) bool {
 	}
 	if s.Purged != 0 {
 		for _, c := range j.r.calls {
-			if c.K == opPurge && c.Inv <= s.Purged && c.Ret != 0 && c.Ret >= s.Purged && c.Ret < seq {
+			if c.K == opPurge && c.Task == s.PurgeTask && c.Inv <= s.Purged && c.Ret != 0 && c.Ret >= s.Purged && c.Ret < seq {
 				return true
 			}
 		}
